@@ -187,8 +187,8 @@ m('chi_squared', 'ChiSquared', 'update', trait='Distribution1D', valid='f_to_int
   requires=['C18.chi.update.len:: params@.len() >= 1', 'C18.chi.update.range:: 0 <= f_to_int(params@[0]) <= usize::MAX'],
   ensures=['C18.chi.update.valid:: f_to_int(params@[0]) > 0', 'C18.chi.update.fresh:: *final(self) == fresh_chi(f_to_int(params@[0]) as usize)'])
 m('chi_squared', 'ChiSquared', 'pdf', trait='Continuous', ret='r',
-  ensures=['C02.chi.pdf.support:: rv(x) < 0real ==> rv(r) == 0real',
-           'C02.chi.pdf.formula:: rv(x) > 0real && self.dof > 0 ==> rv(r) == 1real / (r_pow(2real, (self.dof as real) / 2real) * r_gamma((self.dof as real) / 2real)) * r_pow(rv(x), (self.dof as real) / 2real - 1real) * r_exp(-(rv(x) / 2real))'],
+  ensures=['C02.chi.pdf.support:: rv(x) < 0real || (self.dof == 1 && rv(x) == 0real) ==> rv(r) == 0real',
+           'C02.chi.pdf.formula:: (rv(x) > 0real || (rv(x) == 0real && self.dof != 1)) && self.dof > 0 ==> rv(r) == 1real / (r_pow(2real, (self.dof as real) / 2real) * r_gamma((self.dof as real) / 2real)) * r_pow(rv(x), (self.dof as real) / 2real - 1real) * r_exp(-(rv(x) / 2real))'],
   hints=[('1. / (', 'before', 'proof { if self.dof > 0 { ax_gamma_pos((self.dof as real) / 2real); ax_pow_pos(2real, (self.dof as real) / 2real); lemma_mul_pos(r_pow(2real, (self.dof as real) / 2real), r_gamma((self.dof as real) / 2real)); } }')])
 m('chi_squared', 'ChiSquared', 'mean', trait='Mean', ret='r', ensures=['C02.chi.mean:: rv(r) == self.dof as real'])
 m('chi_squared', 'ChiSquared', 'var', trait='Variance', ret='r', ensures=['C02.chi.var:: rv(r) == 2real * (self.dof as real)'])
@@ -206,8 +206,8 @@ m('t', 'T', 'pdf', trait='Continuous', ret='r',
 m('t', 'T', 'mean', trait='Mean', ret='r', ensures=['C02.t.mean:: rv(self.dof) > 1real ==> rv(r) == 0real'])
 m('t', 'T', 'var', trait='Variance', ret='r', ensures=['C02.t.var:: rv(self.dof) > 2real ==> rv(r) == rv(self.dof) / (rv(self.dof) - 2real)',
                                                          'C02.t.var.inf:: 1real < rv(self.dof) <= 2real ==> r == f_inf()'],
-  rewrites=[('(1. < self.dof) & (self.dof <= 2.)', '(1. < self.dof) && (self.dof <= 2.)',
-             'R23: non-short-circuit `&` on two pure bool comparisons equals `&&` (Verus rejects `&` on bool)')])
+  rewrites=[(r'(\([^()&|]*\)) & (\([^()&|]*\))', r'\1 && \2',
+             'R23: non-short-circuit `&` on two pure bool comparisons equals `&&` (Verus rejects `&` on bool)', 're')])
 
 # ------------------------------------------------------------------ Pareto
 dist('pareto', 'Pareto')
